@@ -41,10 +41,25 @@ func mkReqC53(key int) *bfe_basic.Request {
 // VerifC53_history: K requests; which of the two keys each request carries is a concrete choice
 // (so the md5 signatures are the real ones), all instants and both periods are symbolic.
 func VerifC53_history() {
-	K := vrt.Param("K", 4)
-	T := int32(vrt.Range("threshold", 1, vrt.Param("TMAX", 2)))
-	period, stay := vrt.I64("period"), vrt.I64("stay")
-	vrt.Assume(period > 0 && period < 1<<50 && stay > 0 && stay < 1<<50)
+	historyC53(vrt.Param("K", 4), vrt.Param("TMAX", 2), uint(vrt.Param("PERIOD_BITS", 12)))
+}
+
+// VerifC53_history_wide: the same with the full clock range [0,2^61) ns and periods < 2^50 ns
+// (registered without CLOCK_BITS), for shorter histories.
+func VerifC53_history_wide() {
+	historyC53(vrt.Param("KW", 3), vrt.Param("TMAX", 2), 50)
+}
+
+func historyC53(K int, tmax int, periodBits uint) {
+	T := int32(vrt.Range("threshold", 1, tmax))
+	var period, stay int64
+	if periodBits <= 16 {
+		// narrow variant: 16-bit values zero-extended (upper bits syntactically zero for the solver)
+		period, stay = int64(vrt.U16("period")), int64(vrt.U16("stay"))
+	} else {
+		period, stay = vrt.I64("period"), vrt.I64("stay")
+	}
+	vrt.Assume(period > 0 && period < int64(1)<<periodBits && stay > 0 && stay < int64(1)<<periodBits)
 	rule := mkRuleC53(period, stay, T)
 
 	var key [maxReqC53]int
